@@ -54,6 +54,17 @@ Definition name_from_string (s : list N) : site (list N) :=
 Definition pc_from_i64 (v : Z) : Z := as_usize v.                   (* `* = v`, start = v, pc = v *)
 Definition pc_add (pc n : Z) : site Z :=                             (* ProgramCounter + usize *)
   if pc_add_checked then SOk ((pc + n) mod two64) else if two64 <=? pc + n then SPanic else SOk (pc + n).
+(* branch arm: `(self.try_current_target_pc().unwrap_or_else(|| target_pc.into()) + 2)`: in the segment-less pass 0 the
+   base is the branch target itself *)
+Definition branch_base (cur : option Z) (target : Z) : site Z :=
+  pc_add (match cur with Some p => p | None => pc_from_i64 target end) 2.
+(* `let mut offset = target_pc - cur_pc;` with cur_pc = (base + 2).as_i64() *)
+Definition branch_offset (cur : option Z) (target : Z) : site Z :=
+  match branch_base cur target with
+  | SOk b => let o := target - usize_as_i64 b in if in_i64 o then SOk o else SPanic
+  | SDiag d => SDiag d
+  | SPanic => SPanic
+  end.
 (* Segment::emit: `let end = self.pc + bytes.len()` is computed before the range test *)
 Definition diag_segment_out_of_range : nat := 3%nat.
 Definition segment_emit (pc len : Z) : site Z :=
